@@ -261,8 +261,12 @@ let handle (line : string) : string =
     let frc = f.(1) = "1" in
     let p0 = parse_fen ~frc f.(2) in
     let toks = if f.(3) <> "" then String.split_on_char ' ' f.(3) else [] in
+    let shape = List.fold_left (fun a t -> if String.length t > 2 && String.sub t 0 2 = "H:" then String.sub t 2 (String.length t - 2) else a) "" toks in
+    let toks = List.filter (fun t -> not (String.length t > 2 && String.sub t 0 2 = "H:")) toks in
     let (p, hist) = List.fold_left (fun (p, hs) t ->
         let q = if t = "null" then makenull p else makemove true p (mv_of_string t) in (q, q.hash :: hs)) (p0, [p0.hash]) toks in
+    let hist = match shape with
+      | "empty" -> [] | "drop" -> List.tl hist | "junk" -> [n_of_int 3; n_of_int 2; n_of_int 1] | _ -> hist in
     let tt0 = tt_new (n_of_string f.(4)) in
     let lims = Array.to_list (Array.sub f 5 (Array.length f - 5)) in
     let (_, outs) = List.fold_left (fun (tt, outs) ls ->
@@ -354,6 +358,18 @@ let handle (line : string) : string =
         | ["r"; mb] -> t := t_resize dflt esize !t (n_of_string mb); "r"
         | ["a"; k; v] -> (match t_add !t (n_of_string k) (n_of_string v) with Some t' -> t := t'; "a" | None -> "PANIC")
         | ["p"; k] -> (match t_poll dflt !t (n_of_string k) with Some v -> string_of_n v | None -> "PANIC")
+        | ["A"; k0; cnt; v] ->
+          let k0 = n_of_string k0 and v = n_of_string v in
+          let bad = ref false in
+          for j = 0 to int_of_string cnt - 1 do
+            (match t_add !t (N.add k0 (n_of_int j)) v with Some t' -> t := t' | None -> bad := true) done;
+          if !bad then "PANIC" else "A"
+        | ["P"; k0; cnt] ->
+          let k0 = n_of_string k0 in
+          let bad = ref false and n = ref 0 in
+          for j = 0 to int_of_string cnt - 1 do
+            (match t_poll dflt !t (N.add k0 (n_of_int j)) with Some v -> if not (eqb v dflt) then incr n | None -> bad := true) done;
+          if !bad then "PANIC" else string_of_int !n
         | ["c"] -> t := t_clear !t; "c"
         | ["h"] -> (match t_hashfull dflt eqb !t with Some z -> string_of_z z | None -> "-")
         | ["l"] -> string_of_n (!t).t_len
